@@ -77,6 +77,9 @@ def run(rep, tier):
     nsem = len(rep.violations)
     rule_decoder_semantic(rep, m)
     sem_found = len(rep.violations) > nsem
+    nenc = len(rep.violations)
+    rule_encoder_semantic(rep, m)
+    enc_found = len(rep.violations) > nenc
     try:
         rule_decoder(probe, ir.Module.load(lri.json))
     except repo.AnalysisBroken as e:
@@ -90,7 +93,19 @@ def run(rep, tier):
     else:
         probe.violations = [v for v in probe.violations if "rule" in v]
         rep.merge(probe.export())
-    rule_encoder(rep, m)
+    probe2 = _report.Report("C20", tier)
+    probe2._known = []
+    try:
+        rule_encoder(probe2, m)
+    except repo.AnalysisBroken as e:
+        probe2.violations.append({"message": "shape not recognised: %s" % e})
+    rep.rule("C20.D2", "encoder: size guard dominates stores, tables are the hex alphabets, indices masked to 4 bits")
+    if probe2.violations and not enc_found:
+        rep.unproved_item("C20.D2", "structure proof of ascon_bytes_to_hex inconclusive (%s); behaviour decided for the bounded "
+                          "input set by C20.D2s" % probe2.violations[0]["message"][:140])
+    else:
+        probe2.violations = [v for v in probe2.violations if "rule" in v]
+        rep.merge(probe2.export())
     rule_cpp_helper(rep, build)
     rule_cow(rep, build)
 
@@ -1028,6 +1043,60 @@ def rule_decoder_semantic(rep, m):
         return
     if bad:
         rep.violation(rid, "ascon_bytes_from_hex:semantics", f.src, "ascon_bytes_from_hex: " + "; ".join(bad[:3]) +
+                      (" (and %d more)" % (len(bad) - 3) if len(bad) > 3 else ""))
+    else:
+        rep.instance(rid, len(cases), {"inputs": len(cases)})
+
+
+def rule_encoder_semantic(rep, m):
+    """D2s (bounded, constant propagation through the IR): ascon_bytes_to_hex
+    writes the two hex digits of every byte value in both letter cases plus the
+    terminator and returns the length; a buffer that is too small gives -1, an
+    empty string when there is room for it, and no other write."""
+    from .affine import Machine, Unsupported, const_bits, to_int, is_const
+    from .sponge import cbytes
+    rid = "C20.D2s"
+    rep.rule(rid, "ascon_bytes_to_hex gives the documented string for every byte value, both cases, and refuses short buffers without overrun")
+    f = m.funcs.get("ascon_bytes_to_hex")
+    if f is None or f.decl:
+        raise repo.AnalysisBroken("ascon_bytes_to_hex is not defined")
+    cases = []
+    for upper in (0, 1, 7):
+        for v in range(256):
+            cases.append((bytes([v]), 8, upper))
+        cases.append((bytes([0x01, 0xab, 0xff, 0x00]), 9, upper))
+        cases.append((b"", 1, upper))
+    for inp, ol in ((b"\x12\x34", 4), (b"\x12\x34", 0), (b"\x12", 2), (b"\x12", 1), (b"", 0), (b"\x12\x34\x56", 6), (b"\x12\x34\x56", 7)):
+        cases.append((inp, ol, 0))
+    bad = []
+    try:
+        for inp, ol, upper in cases:
+            mc = Machine(m)
+            ib = mc.new_obj("in", max(len(inp), 1), symbolic=False)
+            mc.store(ib, cbytes(inp + (b"" if inp else b"\0")))
+            ob = mc.new_obj("out", 12, symbolic=False)
+            mc.store(ob, cbytes(b"\xee" * 12))
+            r = to_int(mc.call("ascon_bytes_to_hex", [ob, const_bits(ol, 64), ib, const_bits(len(inp), 64), const_bits(upper, 32)]))
+            if r is None:
+                raise Unsupported("result not constant")
+            r = r - (1 << 32) if r >> 31 else r
+            got = mc.load(ob, 12)
+            if not is_const(got):
+                raise Unsupported("output not constant")
+            gb = bytes(to_int(got[8 * k:8 * k + 8]) for k in range(12))
+            if ol < 2 * len(inp) + 1:
+                wr, wout = -1, (b"\0" if ol > 0 else b"")
+            else:
+                hx = inp.hex().upper() if upper else inp.hex()
+                wr, wout = 2 * len(inp), hx.encode() + b"\0"
+            if r != wr or gb != wout + b"\xee" * (12 - len(wout)):
+                bad.append("input %s, room %d, upper_case %d: returned %d and wrote %r, documented %d and %r" % (
+                    inp.hex() or "(empty)", ol, upper, r, gb.rstrip(b"\xee"), wr, wout))
+    except Unsupported as e:
+        rep.unproved_item(rid, "ascon_bytes_to_hex: %s" % e)
+        return
+    if bad:
+        rep.violation(rid, "ascon_bytes_to_hex:semantics", f.src, "ascon_bytes_to_hex: " + "; ".join(bad[:3]) +
                       (" (and %d more)" % (len(bad) - 3) if len(bad) > 3 else ""))
     else:
         rep.instance(rid, len(cases), {"inputs": len(cases)})
